@@ -23,8 +23,26 @@ Definition verdict (c : case) : Z * Z :=
 (* compact constructors for generated files *)
 Definition ramp (a b n : Z) : list Z := map (fun i => (a + b * i) mod 65536) (zrange 0 n).
 
-(* a long observed frame is written in pieces (Coq's parser cannot take very long list literals) *)
+(* A long observed frame is written in pieces (Coq's parser cannot take very long list literals), and its
+   bytes as the constants b00 .. bff below instead of decimal numerals (Coq reads numerals slowly).  This is
+   only the notation in which the harness writes down the bytes it observed. *)
 Definition cat (chunks : list (list Z)) : list Z := concat chunks.
+Definition b00 := 0. Definition b01 := 1. Definition b02 := 2. Definition b03 := 3. Definition b04 := 4. Definition b05 := 5. Definition b06 := 6. Definition b07 := 7. Definition b08 := 8. Definition b09 := 9. Definition b0a := 10. Definition b0b := 11. Definition b0c := 12. Definition b0d := 13. Definition b0e := 14. Definition b0f := 15.
+Definition b10 := 16. Definition b11 := 17. Definition b12 := 18. Definition b13 := 19. Definition b14 := 20. Definition b15 := 21. Definition b16 := 22. Definition b17 := 23. Definition b18 := 24. Definition b19 := 25. Definition b1a := 26. Definition b1b := 27. Definition b1c := 28. Definition b1d := 29. Definition b1e := 30. Definition b1f := 31.
+Definition b20 := 32. Definition b21 := 33. Definition b22 := 34. Definition b23 := 35. Definition b24 := 36. Definition b25 := 37. Definition b26 := 38. Definition b27 := 39. Definition b28 := 40. Definition b29 := 41. Definition b2a := 42. Definition b2b := 43. Definition b2c := 44. Definition b2d := 45. Definition b2e := 46. Definition b2f := 47.
+Definition b30 := 48. Definition b31 := 49. Definition b32 := 50. Definition b33 := 51. Definition b34 := 52. Definition b35 := 53. Definition b36 := 54. Definition b37 := 55. Definition b38 := 56. Definition b39 := 57. Definition b3a := 58. Definition b3b := 59. Definition b3c := 60. Definition b3d := 61. Definition b3e := 62. Definition b3f := 63.
+Definition b40 := 64. Definition b41 := 65. Definition b42 := 66. Definition b43 := 67. Definition b44 := 68. Definition b45 := 69. Definition b46 := 70. Definition b47 := 71. Definition b48 := 72. Definition b49 := 73. Definition b4a := 74. Definition b4b := 75. Definition b4c := 76. Definition b4d := 77. Definition b4e := 78. Definition b4f := 79.
+Definition b50 := 80. Definition b51 := 81. Definition b52 := 82. Definition b53 := 83. Definition b54 := 84. Definition b55 := 85. Definition b56 := 86. Definition b57 := 87. Definition b58 := 88. Definition b59 := 89. Definition b5a := 90. Definition b5b := 91. Definition b5c := 92. Definition b5d := 93. Definition b5e := 94. Definition b5f := 95.
+Definition b60 := 96. Definition b61 := 97. Definition b62 := 98. Definition b63 := 99. Definition b64 := 100. Definition b65 := 101. Definition b66 := 102. Definition b67 := 103. Definition b68 := 104. Definition b69 := 105. Definition b6a := 106. Definition b6b := 107. Definition b6c := 108. Definition b6d := 109. Definition b6e := 110. Definition b6f := 111.
+Definition b70 := 112. Definition b71 := 113. Definition b72 := 114. Definition b73 := 115. Definition b74 := 116. Definition b75 := 117. Definition b76 := 118. Definition b77 := 119. Definition b78 := 120. Definition b79 := 121. Definition b7a := 122. Definition b7b := 123. Definition b7c := 124. Definition b7d := 125. Definition b7e := 126. Definition b7f := 127.
+Definition b80 := 128. Definition b81 := 129. Definition b82 := 130. Definition b83 := 131. Definition b84 := 132. Definition b85 := 133. Definition b86 := 134. Definition b87 := 135. Definition b88 := 136. Definition b89 := 137. Definition b8a := 138. Definition b8b := 139. Definition b8c := 140. Definition b8d := 141. Definition b8e := 142. Definition b8f := 143.
+Definition b90 := 144. Definition b91 := 145. Definition b92 := 146. Definition b93 := 147. Definition b94 := 148. Definition b95 := 149. Definition b96 := 150. Definition b97 := 151. Definition b98 := 152. Definition b99 := 153. Definition b9a := 154. Definition b9b := 155. Definition b9c := 156. Definition b9d := 157. Definition b9e := 158. Definition b9f := 159.
+Definition ba0 := 160. Definition ba1 := 161. Definition ba2 := 162. Definition ba3 := 163. Definition ba4 := 164. Definition ba5 := 165. Definition ba6 := 166. Definition ba7 := 167. Definition ba8 := 168. Definition ba9 := 169. Definition baa := 170. Definition bab := 171. Definition bac := 172. Definition bad := 173. Definition bae := 174. Definition baf := 175.
+Definition bb0 := 176. Definition bb1 := 177. Definition bb2 := 178. Definition bb3 := 179. Definition bb4 := 180. Definition bb5 := 181. Definition bb6 := 182. Definition bb7 := 183. Definition bb8 := 184. Definition bb9 := 185. Definition bba := 186. Definition bbb := 187. Definition bbc := 188. Definition bbd := 189. Definition bbe := 190. Definition bbf := 191.
+Definition bc0 := 192. Definition bc1 := 193. Definition bc2 := 194. Definition bc3 := 195. Definition bc4 := 196. Definition bc5 := 197. Definition bc6 := 198. Definition bc7 := 199. Definition bc8 := 200. Definition bc9 := 201. Definition bca := 202. Definition bcb := 203. Definition bcc := 204. Definition bcd := 205. Definition bce := 206. Definition bcf := 207.
+Definition bd0 := 208. Definition bd1 := 209. Definition bd2 := 210. Definition bd3 := 211. Definition bd4 := 212. Definition bd5 := 213. Definition bd6 := 214. Definition bd7 := 215. Definition bd8 := 216. Definition bd9 := 217. Definition bda := 218. Definition bdb := 219. Definition bdc := 220. Definition bdd := 221. Definition bde := 222. Definition bdf := 223.
+Definition be0 := 224. Definition be1 := 225. Definition be2 := 226. Definition be3 := 227. Definition be4 := 228. Definition be5 := 229. Definition be6 := 230. Definition be7 := 231. Definition be8 := 232. Definition be9 := 233. Definition bea := 234. Definition beb := 235. Definition bec := 236. Definition bed := 237. Definition bee := 238. Definition bef := 239.
+Definition bf0 := 240. Definition bf1 := 241. Definition bf2 := 242. Definition bf3 := 243. Definition bf4 := 244. Definition bf5 := 245. Definition bf6 := 246. Definition bf7 := 247. Definition bf8 := 248. Definition bf9 := 249. Definition bfa := 250. Definition bfb := 251. Definition bfc := 252. Definition bfd := 253. Definition bfe := 254. Definition bff := 255.
 
 Definition mk (chan : Z) (signed : bool) (pre : Z) (data : list Z) (period vpa time frame : Z)
               (ptmean peak rms avg resid : Z) (coefs : list Z)
